@@ -93,9 +93,22 @@ def gen_case(r, kind, nmax, ctx):
         return f"dom {m} {flat([p, q])}"
     if kind == "sort":
         n = r.choice([0, 1, 2, 3]) if r.chance(1, 6) else r.range(0, nmax)
+        big = r.chance(1, 12)
+        if big:
+            # the size/dimension switch of nonDominatedSort: fast sort from n >= 3^(m+1) on (m = 3: 81, m = 4: 243)
+            m = r.choice([3, 3, 4] if nmax > 40 else [3])
+            n = 3 ** (m + 1) + r.choice([-2, -1, 0, 1, 2, 7, 30])
         w = width_for(r, m) + (r.choice([0, 3, 8]) if n > 40 else 0)
         P = gen_points(r, m, n, w, base, r.choice(["mix", "dup", "front"]))
-        ctx.hist("sort_n", min(n // 10 * 10, 300)); ctx.hist("sort_m", m)
+        mag = r.choice([0, 0, 0, 1, 2])
+        if mag:
+            # extreme magnitudes (sorting is order-only): affine images x -> a*x + b with large a, b, per coordinate
+            a = [r.choice([1, 1000003, 2 ** 40]) for _ in range(m)]; b = [r.choice([0, -2 ** 50, 2 ** 51 - 2 ** 43]) for _ in range(m)]
+            P = [[a[d] * p[d] + b[d] for d in range(m)] for p in P]
+        ctx.hist("sort_n", min(n // 10 * 10, 300)); ctx.hist("sort_m", m); ctx.hist("sort_large_magnitude", bool(mag))
+        ctx.hist("sort_nds_uses", "empty" if n == 0 else ("dc" if (m == 2 or n > 5000 or n < 3 ** (m + 1)) else "fast"))
+        ctx.hist("sort_has_duplicates", len({tuple(p) for p in P}) < n)
+        ctx.hist("sort_all_equal_in_some_coordinate", n > 1 and any(len({p[d] for p in P}) == 1 for d in range(m)))
         return f"sort {m} {n} {flat(P)}".rstrip()
     if kind == "hv":
         n = r.choice([0, 1, 2, 3]) if r.chance(1, 6) else r.range(0, min(nmax, 40 if m <= 4 else 12))
@@ -104,6 +117,10 @@ def gen_case(r, kind, nmax, ctx):
         ref = gen_ref(r, P, m, base, w)
         ctx.hist("hv_n", n // 5 * 5); ctx.hist("hv_m", m)
         ctx.hist("hv_point_on_ref_boundary", any(p[d] == ref[d] for p in P for d in range(m)))
+        ctx.hist("hv_has_duplicates", len({tuple(p) for p in P}) < n)
+        ctx.hist("hv_has_dominated", len(nondominated(P)) < n)
+        ctx.hist("hv_equal_first_coordinate", len({p[0] for p in P}) < n)
+        ctx.hist("hv_ties_in_last_coordinate", len({p[-1] for p in P}) < n)
         return f"hv {m} {n} {flat([ref])} {flat(P)}".rstrip()
     if kind == "con":
         alg = r.choice(["2d", "3d", "md", "md", "disp"])
@@ -120,6 +137,8 @@ def gen_case(r, kind, nmax, ctx):
         side = r.choice(["small", "large"])
         ctx.hist("con_alg", f"{alg}/{side}/m{m}"); ctx.hist("con_n", n); ctx.hist("con_k_is_0_or_n", k in (0, n))
         ctx.hist("con_duplicates", len({tuple(p) for p in P}) < n)
+        ctx.hist("con_point_on_ref_boundary", any(p[d] == ref[d] for p in P for d in range(m)))
+        ctx.hist("con_ties_in_a_coordinate", any(len({p[d] for p in P}) < n for d in range(m)))
         return f"con {alg} {side} {k} {m} {n} {flat([ref])} {flat(P)}".rstrip()
     if kind == "ssp":
         w = r.choice([3, 4, 6, 9])
@@ -136,6 +155,8 @@ def gen_case(r, kind, nmax, ctx):
         ref = gen_ref(r, P, 2, base, w)
         nd = len({tuple(p) for p in nondominated(P)})
         k = r.range(1, nd)
+        ctx.hist("ssp_k_equals_front_size", k == nd); ctx.hist("ssp_point_on_ref_boundary", any(p[d] == ref[d] for p in P for d in range(2)))
+        ctx.hist("ssp_has_dominated", nd < len({tuple(p) for p in P})); ctx.hist("ssp_has_duplicates", len({tuple(p) for p in P}) < n)
         ctx.hist("ssp_n", n if n <= 16 else ">16"); ctx.hist("ssp_k", min(k, 10)); ctx.hist("ssp_has_equal_x", len({p[0] for p in P}) < n)
         return f"ssp {k} {n} {flat([ref])} {flat(P)}"
     raise ValueError(kind)
@@ -293,6 +314,10 @@ def run(ctx):
         for i in range(cnt):
             nmax = 40 if ctx.quick else (300 if (kind == "sort" and i % 6 == 0) else 60)
             lines.append(gen_case(r, kind, nmax, ctx))
+    if not ctx.quick:
+        # third arm of the switch: n > 5000 goes back to the divide-and-conquer sort
+        P = gen_points(r, 3, 5003, 9, 0, "mix")
+        lines.append(f"sort 3 5003 {flat(P)}"); ctx.hist("sort_nds_uses", "dc(n>5000)")
     for l in lines: ctx.hist("op_mix", l.split()[0])
     ctx.cov["evaluations"] = len(lines)
     ctx.cov["distinct_nontrivial"] = len({l for l in lines if nontrivial(l)})
